@@ -9,15 +9,21 @@
    their contracts, stated as premises:
      sqrt_contract : 0 <= x -> sqrt x * sqrt x = x
      sq_contract   : psd P -> sq n P *m (sq n P)^T = P.
-   Circular (Euler) rows and quaternion blocks are modelled (C03_Model) and
-   covered by the correspondence check and the oracle; about them only
-   C03_first_sigma_point_partial is proved here (what is missing: wrap x = x
-   modulo 2 pi and the quaternion exp/log round trip, i.e. C19 / C18 facts, and
-   from them moment preservation on those rows for spreads within a half turn). *)
+   Circular (Euler) rows and quaternion blocks are modelled (C03_Model) and covered by
+   the correspondence check and the oracle.  Proved about them: the first sigma point for
+   every layout (C03_first_sigma_point_partial, MathComp instance), and at the Coq-reals
+   instance (the four standard real-number axioms) C03_circular_row (one Euler row of the
+   symmetric sigma set behaves as a linear row modulo 2 pi: mean and every offset) and
+   C03_quaternion_block (sum / diff round trip, with the 1e-4 cut-off bound), using C19 and
+   C18.  What remains partial: assembling these row / block facts with the linear-algebra
+   theorems into moment preservation for a whole mixed layout, and the quaternion mean
+   (dominant-eigenvector premise, C18's mean_symmetric_partial). *)
 Require Import ZArith QArith List.
 Require Import BFL.Ops BFL.ListOps BFL.C03_Model.
 From mathcomp Require Import all_ssreflect all_algebra.
 Require Import BFL.MxOps BFL.LinAlg BFL.C03_Proofs BFL.C03_Circular.
+Require BFL.C03_Real.
+Require Import BFL.ListOpsCorrect BFL.C02_Transport BFL.C03_Transport.
 Import Order.Theory GRing.Theory Num.Theory.
 Local Open Scope ring_scope.
 
@@ -177,23 +183,22 @@ Definition rat_tr : Transc [realFieldType of rat] :=
   @mkTransc [realFieldType of rat] (fun x => if x == 4%:R then 2%:R else 0) id id id id id (fun y _ => y) 3%:R 0.
 Definition rat_sq (n : nat) (P : 'M[rat]_n) : 'M[rat]_n := 2%:R%:M.
 Definition rat_eg (n : nat) (P : 'M[rat]_n) : 'M[rat]_(n,1) := 0.
-Example C03_premises_rat (A : 'M[rat]_(1,2)) (b m : 'cV[rat]_1) (x : 'cV[rat]_2) :
+Example C03_premises_rat (A : 'M[rat]_(1,2)) (b : 'cV[rat]_1) (x : 'cV[rat]_2) :
   let O := MxMat rat_tr rat_sq rat_eg in
   let L := mkLayout 2 0 false 0 in
   let w := ut_weights (O:=O) 2 1 0 2%:R in
-  ut_generic (O:=O) L (mkLayout 1 0 false 0) 1 2 w [:: (x, 4%:R%:M)]
+  let P : 'M[rat]_2 := 4%:R%:M in
+  ut_generic (O:=O) L (mkLayout 1 0 false 0) 1 2 w [:: (x, P)]
              (fun X => Some (affine_cols (O:=O) A b X)) =
   Some (mkUtResult (O:=O)
-          [:: mkUtComp (O:=O) (A *m x + b : 'cV[rat]_1) (A *m 4%:R%:M *m A^T + 0) (sel rat 2 2 *m 4%:R%:M *m A^T)]
+          [:: mkUtComp (O:=O) (A *m x + b : 'cV[rat]_1) (A *m P *m A^T + 0)
+                       (sel [realFieldType of rat] 2 2 *m P *m A^T)]
           (repeat (1 / 1%:R) 1)).
 Proof.
-move=> O L w.
+move=> O L w P.
 have Hc : w_c w = 4%:R by rewrite ut_weights_c ut_weights_c_alt !mul1r -natrD.
-apply: (@C03_affine_exact rat rat_tr rat_sq rat_eg L (mkLayout 1 0 false 0) 2 2 1 1 0 2%:R A b [:: (x, 4%:R%:M)]) => //.
-- by rewrite -/w Hc.
-- by rewrite -/w Hc /= eqxx -natrM.
-- move=> mc [<-|[]] /=; rewrite /rat_sq tr_scalar_mx -scalar_mxM -natrM.
-  by [].
+apply: (@C03_affine_exact [realFieldType of rat] rat_tr rat_sq rat_eg L (mkLayout 1 0 false 0) 2 2 1 1 0 2%:R A b [:: (x, P)]) => //.
+by move=> mc [<-|[]] /=; rewrite /rat_sq /P tr_scalar_mx -scalar_mxM -natrM.
 Qed.
 
 (* ... and the executable instance of the same model, run over exact rationals
@@ -230,6 +235,75 @@ Example C03_concrete_Q :
      end = true.
 Proof. vm_compute. reflexivity. Qed.
 
+(* ---- transport: the structural core executed at the LIST instance (the one that is extracted
+   and run) represents what the same definitions compute at the MathComp instance, on
+   well-formed inputs, over any realFieldType: only rounding separates the two.  Not covered:
+   the per-row builders (mbuild over mget), chunking, the square-root / eigenvector oracles. *)
+Theorem C03_transport_weighted_sums (F : realFieldType) (tr : Transc F) sq eg (r a b : nat) (ws : list F)
+        ls (As : list 'cV[F]_r) lu (Us : list 'cV[F]_a) lv (Vs : list 'cV[F]_b) :
+  let OL := ListMat (FOps tr) (fun _ X => X) (fun _ X => X) in
+  let OM := MxMat tr sq eg in
+  repr_cols ls As -> repr_cols lu Us -> repr_cols lv Vs ->
+  repr (@wsum OL r ws ls) (@wsum OM r ws As : 'cV[F]_r) /\
+  repr (@wouter OL a b ws lu lv) (@wouter OM a b ws Us Vs : 'M[F]_(a,b)).
+Proof. by move=> OL OM H1 H2 H3; split; [exact: wsum_transport | exact: wouter_transport]. Qed.
+
+Theorem C03_transport_affine_map (F : realFieldType) (tr : Transc F) sq eg (d p : nat)
+        lA (A : 'M[F]_(p,d)) lb (b : 'cV[F]_p) ls (Xs : list 'cV[F]_d) :
+  repr lA A -> repr lb b -> repr_cols ls Xs ->
+  repr_cols (@affine_cols (ListMat (FOps tr) (fun _ X => X) (fun _ X => X)) d p lA lb ls)
+            (@affine_cols (MxMat tr sq eg) d p A b Xs).
+Proof. exact: affine_cols_transport. Qed.
+
+(* ---- circular rows and quaternion blocks at the Coq-reals instance (World B) ---- *)
+Require Import Reals.
+Section C03Real.
+Local Open Scope R_scope.
+Import C03_Real C19_ROps C19_Proofs C18_Proofs.
+
+(* One Euler row of a component's sigma points: mean angle m, tangent perturbations
+   0, +p_k, -p_k (the row of [0 | sqrt(c) A | -sqrt(c) A]) with every |p_k| within a half
+   turn, weights w0 :: wi ... wi, and a positive weighted resultant w0 + 2 wi sum cos p_k
+   (stated, not hidden: w0 is negative for small alpha).  Then the directional mean of
+   the row is arg(exp(j m)) and directional_sub recovers every perturbation exactly: the
+   row contributes to the covariance sums exactly as a linear row does. *)
+Theorem C03_circular_row (m w0 wi : R) (ps : list R) :
+  let perts := 0 :: app ps (List.map Ropp ps) in
+  let xs := List.map (fun p => C03_Model.dir_add (O:=RM) p m) perts in
+  let ws := w0 :: repeat wi (Nat.add (length ps) (length ps)) in
+  Forall in_range ps -> Forall (fun p => in_range (- p)) ps -> ps <> nil ->
+  0 < w0 + 2 * wi * fold_right (fun p acc => cos p + acc) 0 ps ->
+  C03_Model.dir_mean (O:=RM) ws xs = C19_Model.wrap ROps m /\
+  List.map (fun x => C03_Model.dir_sub (O:=RM) x (C03_Model.dir_mean (O:=RM) ws xs)) xs = perts.
+Proof.
+by move=> perts xs ws H1 H2 H3 H4; split; [exact: circular_row_mean | exact: circular_row_offsets].
+Qed.
+
+(* A sigma quaternion exp(p/2) q built by sum_quaternion_rotation_vector from the unit mean
+   quaternion q is read back as p by diff_quaternion when p is outside the 1e-4 cut-off zone
+   and within a half turn; in every case the error is at most 2 asin(1e-4). *)
+Theorem C03_quaternion_block (q : C03_Model.quat RM) (p : C03_Model.rvec RM) :
+  qnorm2 (toQ q) = 1 -> n3 (toV p) <= PI ->
+  (cut < sin (n3 (toV p) / 2) -> C03_Model.qdiff (O:=RM) (C03_Model.qsum (O:=RM) q p) q = p) /\
+  vdist (toV (C03_Model.qdiff (O:=RM) (C03_Model.qsum (O:=RM) q p) q)) (toV p) <= 2 * asin cut.
+Proof. exact: quaternion_block. Qed.
+
+(* the scalar helpers of C03_Model used above are C19's / C18's transcriptions of the same code *)
+Theorem C03_scalar_helpers_are_C19_C18 :
+  (forall x, C03_Model.wrap (O:=RM) x = C19_Model.wrap ROps x) /\
+  (forall ws a b l, C03_Model.dir_mean (O:=RM) ws (a :: b :: l) = C19_Model.mean_row ROps (a :: b :: l) ws) /\
+  (forall q r, toQ (C03_Model.qsum (O:=RM) q r) = C18_Model.qsum_one ROps (toQ q) (toV r)) /\
+  (forall a b, toV (C03_Model.qdiff (O:=RM) a b) = C18_Model.qdiff_one ROps (toQ a) (toQ b)).
+Proof. exact: scalar_helpers_link. Qed.
+
+(* non-vacuity of C03_circular_row: p = 1/2, w0 = -1/2, wi = 3/4 (resultant -1/2 + 3/2 cos(1/2) > 0) *)
+Example C03_circular_row_premises :
+  let ps := (1/2) :: nil in
+  Forall in_range ps /\ Forall (fun p => in_range (- p)) ps /\ ps <> nil /\
+  0 < -(1/2) + 2 * (3/4) * fold_right (fun p acc => cos p + acc) 0 ps.
+Proof. exact: circular_row_premises_example. Qed.
+End C03Real.
+
 Print Assumptions C03_weights_sum.
 Print Assumptions C03_weights_shape.
 Print Assumptions C03_sigma_moments_linear.
@@ -240,3 +314,8 @@ Print Assumptions C03_affine_exact_augmented.
 Print Assumptions C03_first_sigma_point_partial.
 Print Assumptions C03_failure_propagates.
 Print Assumptions C03_success_propagates.
+Print Assumptions C03_transport_weighted_sums.
+Print Assumptions C03_transport_affine_map.
+Print Assumptions C03_circular_row.
+Print Assumptions C03_quaternion_block.
+Print Assumptions C03_scalar_helpers_are_C19_C18.
